@@ -400,14 +400,21 @@ Lemma seval_binop_unfold n e op a b sp :
   SyltSem.bind (SyltSem.binop_val op xa xb) (fun r => SyltSem.ret (SV r)))))).
 Proof. destruct op; try discriminate; reflexivity. Qed.
 
+(* a dynamic type error or an operation outside the reference semantics *)
+Definition stuckish (o : SyltSem.outcome) : Prop :=
+  match o with SyltSem.OStuck _ | SyltSem.OUnsup _ => True | _ => False end.
+
+Lemma stuckish_not_good o : stuckish o -> ~ good_stop o.
+Proof. destruct o; cbn; auto. Qed.
+
 Lemma lift_res_bad {A} w (r : Values.res A) s x s' :
   SyltSem.lift_res w r s = (x, s') ->
-  match x with SyltSem.RVal _ => True | SyltSem.RStop o => ~ good_stop o | SyltSem.RAbrupt _ => False end.
+  match x with SyltSem.RVal _ => True | SyltSem.RStop o => stuckish o | SyltSem.RAbrupt _ => False end.
 Proof. destruct r; cbn; intros H; inversion H; subst; cbn; auto. Qed.
 
 Lemma binop_val_res op a b s r s' :
   SyltSem.binop_val op a b s = (r, s') ->
-  match r with SyltSem.RVal _ => True | SyltSem.RStop o => ~ good_stop o | SyltSem.RAbrupt _ => False end.
+  match r with SyltSem.RVal _ => True | SyltSem.RStop o => stuckish o | SyltSem.RAbrupt _ => False end.
 Proof.
   unfold SyltSem.binop_val.
   destruct op; intros H;
@@ -559,7 +566,7 @@ Proof.
           as (E3 & stL3 & F3 & Hok3 & Hd3).
         cbn [eval_post]. exists E3, stL3, F3. split; [|exact Hd3].
         rewrite app_assoc. eapply okstep_trans; [exact Hok2 | exact Hok3 | lia | lia].
-      * inversion Hev; subst. apply binop_val_res in Hbv. contradiction.
+      * inversion Hev; subst. apply binop_val_res in Hbv. apply stuckish_not_good in Hbv. contradiction.
       * inversion Hev; subst. destruct Hint.
     + destruct op; try discriminate Hfrag; try discriminate Hvop.
       * (* <=> *)
